@@ -10,16 +10,16 @@ PROP = {
             "several documents in flat / nested / mixed spellings (family merge), or documents with keys that are both a value and a prefix (family collision, "
             "determinism clause only); every case is loaded 3x in the worker and once in each of P = 8 (quick) / 16 (thorough) fresh processes; "
             "distinct = FNV of the document list (held or refuted); non-trivial = at least one shared setting or a collision",
-    "min_nontrivial": {"quick": 1200, "thorough": 25000},
+    "min_nontrivial": {"quick": 1500, "thorough": 20000},
     "max_secs": {"quick": 75, "thorough": 1000},
     "require_clauses": ["1:determinism", "2:merge-model", "family:merge", "family:collision"],
     "assumptions": COMMON_ASSUME + [
         "reference model: every document normalised to nested keys, folded left; objects merged, scalars overwritten by the later document, arrays = earlier ++ (later minus already present); "
-        "read through the same serde types as the real loader",
+        "read through the same serde types as the real loader; accepted with and without pruning empty objects (the statement does not say whether an empty section equals an absent one)",
         "documents set a setting at most once and arrays have no duplicates inside one document, so the model is unambiguous",
         "a case whose every load panics is counted as deterministic here (the panic is C31's finding)",
     ],
     "level_text": "Each generated file list is loaded repeatedly in fresh processes and compared with a model written from the property statement. "
-                  "~1.9k cases x 11 loads (quick). Exploration, not proof.",
+                  "16 x 400 cases x 11 loads (quick), 16 x 4 000 x 19 loads (thorough). Exploration, not proof.",
     "level_note": "Hash-seed dependence is sampled (11 / 19 loads per case), not enumerated; Lua configuration files are not part of this check.",
 }
